@@ -124,8 +124,8 @@ func hasFloat(env *ty.Env, t *ty.Ty) bool {
 	return f
 }
 
-func iv(n int64) *ty.Val    { return &ty.Val{K: ty.VInt, Int: fmt.Sprint(n)} }
-func sv(s string) *ty.Val   { return &ty.Val{K: ty.VStr, Str: []byte(s)} }
+func iv(n int64) *ty.Val     { return &ty.Val{K: ty.VInt, Int: fmt.Sprint(n)} }
+func sv(s string) *ty.Val    { return &ty.Val{K: ty.VStr, Str: []byte(s)} }
 func fv(bits uint64) *ty.Val { return &ty.Val{K: ty.VFlt, W: 64, Bits: bits} }
 func sl(es ...*ty.Val) *ty.Val {
 	return &ty.Val{K: ty.VSlice, Elems: es}
